@@ -11,7 +11,7 @@ TECHNIQUE = 'Lean 4: generic stream well-formedness theorem instantiated at the 
 LEAN_TARGET = "CxxModel.Props.C01"
 THEOREMS = ["Cxx.C01_dispatch", "Cxx.C01_keep_doxygen", "Cxx.C01_stream_well_formed", "Cxx.C01_fold_cons",
             "Cxx.C01_fold_append", "Cxx.dispatch_table_eq", "Cxx.rules_supported", "Cxx.C01_each_payload_stored_once", "Cxx.C01_one_callback", "Cxx.foldEvents_total", "Cxx.C01_enumerator_list", "Cxx.C01_enumerator_list_trailing_comma", "Cxx.enumList_last", "Cxx.enum_prefix", "Cxx.C01_using_namespace", "Cxx.C01_namespace_alias", "Cxx.C01_using_namespace_decl", "Cxx.C01_toplevel_using_namespace", "Cxx.C01_toplevel_using_declaration", "Cxx.C01_toplevel_variable", "Cxx.C01_declaration_statement", "Cxx.C01_toplevel_variables", "Cxx.C01_toplevel_typedef", "Cxx.C01_toplevel_forward_decl", "Cxx.C01_toplevel_using_alias", "Cxx.C01_toplevel_enum", "Cxx.C01_toplevel_function", "Cxx.C01_toplevel_function_params",
-    "Cxx.C01_function_general", "Cxx.toplevel_function_gen", "Cxx.C01_typedef_general", "Cxx.C01_using_alias_general", "Cxx.typeSpecS_cv",
+    "Cxx.C01_function_general", "Cxx.toplevel_function_gen", "Cxx.C01_typedef_general", "Cxx.C01_using_alias_general", "Cxx.typeSpecS_cv", "Cxx.C01_declaration_statement_general", "Cxx.declarators_variables_pre",
     "Cxx.C01_whole_source",
     "Cxx.C01_sequence",
     "Cxx.C01_variable_sequence",
@@ -209,6 +209,35 @@ def run(ctx):
                 ffails.append({"input": text, "diff": "template argument reported as %s, the plain declaration `%s fn(%s);` reports %s (%s)" % (
                     type(arg).__name__ + " " + (arg.format() if hasattr(arg, "format") else ""), r, pl, ref.return_type.format(), ", ".join(q.format() for q in ref.parameters))})
     ctx.oracle("function_type_arguments", nf, ffails)
+    # include and pragma directives are reported as written, whatever the header is called
+    ifails = []
+    ni = 0
+    for name in ('"gen//config.h"', "<boost//version.hpp>", '"a/*b.h"', "<x/*y*/z.h>", '"dir with blank/h.h"', "<a..b/../c.h>", '"quote\'s.h"', "<u8/\u00e4.h>",
+                 '"back\\slash.h"', "<sys/types.h>", '"a;b.h"', '"#hash.h"', "<a<b>.h>"):
+        for form in ("#include %s\nint after;\n", "namespace n {\n#include %s\nint v;\n}\n", "int before;\n#  include %s\n", "# include\t%s\nstruct S {};\n"):
+            src = form % name
+            ni += 1
+            try:
+                d = parse_string(src)
+                got = [i.filename for i in d.includes]
+                if got != [name]:
+                    ifails.append({"input": src, "diff": "include reported as %r, written %r" % (got, name)})
+                elif "after" in src and [v.name.segments[-1].name for v in d.namespace.variables] != ["after"]:
+                    ifails.append({"input": src, "diff": "the declaration after the include is missing"})
+            except CxxParseError as e:
+                ifails.append({"input": src, "diff": "rejected: %s" % e})
+    for content in ("once", "omp parallel for", "warning(disable : 4996)", "GCC diagnostic ignored \"-Wall\"", "pack(push, 1)"):
+        src = "#pragma %s\nint after;\n" % content
+        ni += 1
+        try:
+            d = parse_string(src)
+            got = ["".join(t.value for t in p.content.tokens) for p in d.pragmas]
+            want = content.replace(" ", "")
+            if [g.replace(" ", "") for g in got] != [want]:
+                ifails.append({"input": src, "diff": "pragma reported as %r" % got})
+        except CxxParseError as e:
+            ifails.append({"input": src, "diff": "rejected: %s" % e})
+    ctx.oracle("directives_as_written", ni, ifails)
     ctx.sample({"program": progs[0][0]})
     # correspondence: model vs implementation
     texts = pcommon.corpus() + [p[0] for p in progs[: ctx.budget(150, 5000)]] + pcommon.mutated_corpus(ctx, ctx.budget(300, 8000))
